@@ -1,7 +1,9 @@
 """C16 - constraint transforms land in their target set and leave conforming input alone.
 Correspondence: real `decorator(...)(identity)(x)` (mystic.constraints / mystic.tools) vs lean Model/Transforms
 (bit-exact; random draws of unique / bounded recorded from the real run and replayed by the model).
-Monitor: the property itself (in-target, frame, idempotence) evaluated on what the real code returns."""
+Monitor: the property itself (in-target, frame, idempotence, tie rules, exact statistics targets and their degenerate inputs,
+last-write-wins, KeyError guard, nearest interval) evaluated on what the real code returns, plus the aliasing monitor
+(argument unchanged, result does not share storage with it, no state carried from call to call)."""
 import sys, time, math, copy, json, random as _random
 import common
 from common import case_rng, fl, fll, f2b, b2f, same_float, same_vec, dyadic, parse_reply, floats_of
@@ -1398,14 +1400,18 @@ def main(tier, seed):
             "with_spread / normalized / with_variance / with_std; x a list, ndarray or tuple of length 0-12 built from integers, "
             "half-integers (ties), dyadics, values on / one ulp beside / midway between the bounds and samples, +-0, +-inf, NaN; "
             "index = None / single / tuple / negative / out-of-range / duplicate / empty.  non-trivial = the transform changed "
-            "the input or raised; the histogram lists op:container:index-kind:outcome")
+            "the input or raised; the histogram lists op:container:index-kind:outcome, clause:<tag> = cases that exercise a tie / "
+            "degenerate / list-target / unsorted-mask / selected-subsequence / re-draw path, alias:<op>:<outcome> = aliasing monitor "
+            "(checked | exempt: rewrites its buffer by design | returned-argument: the decorated identity's own return)")
     tb = ["Lean 4.33 kernel + the single Mathlib modules imported by Props/C16; axioms per theorem under coverage.theorems",
           "hand-written model Model/Transforms.lean tied to mystic.constraints / mystic.tools / measures by this bit-exact differential run only",
           "numpy.round(x, d) is modelled as rint(x*10^d)/10^d, numpy.sum as 8-accumulator pairwise summation, numpy.clip as min(max(x,lo),hi), "
           "maximum.accumulate as a left fold: all four validated only through this run",
           "with_mean / with_spread / with_variance sum in an order the model does not replicate (python compensated sum): exact on the dyadic stream, "
           "relative 1e-9 on the general stream (counted under histogram stream:toleranced)",
-          "rint results are compared up to the sign of a zero; None bounds travel as NaN and are converted by the driver as bounded() does"]
+          "rint results are compared up to the sign of a zero; None bounds travel as NaN and are converted by the driver as bounded() does",
+          "aliasing / storage sharing / state carried between calls are heap properties outside the list model: judged by the aliasing monitor only "
+          "(same buffer called twice and refilled in between, reference = a decorator built anew from the configuration)"]
     assumptions = ["the decorated function is the identity (the anchors' observation point); inner/outer placement is exercised through sorting/monotonic/clipped/suppressed only",
                    "theorems are over a linearly ordered field / linear order: no NaN, no rounding; `floor` and the summation are parameters with their defining laws as hypotheses",
                    "impose_as masks are acyclic (a cyclic mask never terminates in the code); duplicate indices are malformed and only compared, not judged",
